@@ -74,6 +74,40 @@ CLAIMS = {
         "note": TB,
         "technique": "provenance (taint) of block-number symbols in the abstract interpreter's value terms + discharged overflow obligations",
     },
+    "C03": {
+        "category": "proof",
+        "text": "For every request filename at once: every filesystem call on the listener and in both workers receives join(<Server dir field>, "
+                "convert(filename)) (provenance terms, worker side by substitution of the spawn environment) and no other filesystem API is used; the root "
+                "joined, validated and compared is the same field (send_directory for reads, receive_directory for writes); every effect is preceded on "
+                "every path by a successful validation [ghost 'validated' discharged by the interpreter through the listen loop]; rejected requests end "
+                "their iteration with ERROR 2; the validator returns true only under contains('..') == false and ancestors().any(== root); the converted "
+                "name is relative. Symlinks inside the served tree are not decided.",
+        "design_ref": "DESIGN.md section 4 C03",
+        "note": TB + " A-SYMLINK, A-PATHSEM, A-UTF8.",
+        "technique": "provenance terms + ghost-variable gate discharged by abstract interpretation of Server::listen",
+    },
+    "C06": {
+        "category": "proof",
+        "text": "For every request, configuration and request history at once: every effect of request handling is preceded on every path by the "
+                "knowledge that the policy allows it (WRQ: !read_only && (!exists || overwrite); RRQ: exists) [ghost 'policy']; each refused class ends its "
+                "listen-loop iteration having sent exactly ERROR 2 / 6 / 1 from the listening socket to the requester, with no Server field changed; the "
+                "codes have the RFC values; the upload sink is a truncating create.",
+        "design_ref": "DESIGN.md section 4 C06",
+        "note": TB + " Path::exists is taken to reflect the filesystem at request time.",
+        "technique": "ghost-variable typestate (request kind, existence, reply code) discharged by abstract interpretation of the listen loop; checks on its back-edge states",
+    },
+    "C09": {
+        "category": "other",
+        "text": "Handshake reply is OACK exactly for a non-empty recognised option list (ACK 0 for an option-less write, nothing for an option-less read) "
+                "and echoes the handler's list [ghost 'handshake']; only tsize of a read request is rewritten (to metadata.len()); worker settings are the "
+                "option values themselves (no arithmetic) and flow unchanged to Worker::new, set_read_timeout, Window size, receive buffer, time-out test; "
+                "every option visited by the option loop is in range at the loop's back edge or the function returned Err; worker threads start under "
+                "these bounds and none of their panic obligations that depend on negotiated values is open (this found D7); defaults 512/1/5 s. What a peer "
+                "observes is not decided.",
+        "design_ref": "DESIGN.md section 4 C09",
+        "note": TB,
+        "technique": "abstract interpretation (per-iteration facts at loop back edges, thread-entry preconditions, obligations) + provenance of Worker::new arguments",
+    },
     "C04": {
         "category": "other",
         "text": "Necessary structural conditions of loss tolerance, decided on the MIR of both worker closures for all fault sequences at once: "
